@@ -126,6 +126,11 @@ class Sim:
         else:
             if len(got) == 0 or got != exp[len(exp) - len(got):]:
                 ok = False
+        if ok and drop is not None and op[0] == 'append' and len(m) < drop and len(got) >= drop:
+            # the drop-oldest LIMIT: a single append to an array below the limit must leave it below the limit
+            self.problems.append(('drop-limit-not-applied', {'op': op[0]},
+                                  'after %s on %d rows the array holds %d rows, the drop-oldest limit is %d' % (op, len(m), len(got), drop)))
+            return False
         if not ok:
             self.problems.append(('content', {'op': op[0], 'drop': drop is not None},
                                   'after %s content is %s, list model says %s' % (op, got, exp)))
@@ -288,7 +293,8 @@ def run(ctx):
     cov['bounds'] = {'depth': depth, 'configs(bucket,drop_at)': cfgs,
                      'ops': [list(o) for o in ops_for(3, None)]}
     ctx.assumptions += ['rows are 2 floats; row values never influence control flow, so states are merged on (index, capacity, bucket_size)',
-                        'with drop_at only append/append_multiple/flush/item assignment are driven (jesse uses drop_at on append-only stores)']
+                        'with drop_at only append/append_multiple/flush/item assignment are driven (jesse uses drop_at on append-only stores)',
+                        'drop-oldest limit: how many rows a drop removes is left to the implementation, but a single append to an array below the limit must leave it below the limit (bulk appends may overshoot until the next drop)']
 
 
 def replay(case, ctx):
